@@ -1,4 +1,5 @@
 """C10 - concurrent creation, deletion and lazy queuing via shared access lose nothing (clause: atomic discipline)."""
+import re
 from ..alloc import ALLOC, CACHE, AllocModel
 from ..core import base_ty, strip_ref
 from . import _alloc_rules, c12
@@ -114,6 +115,12 @@ def r2(ctx, facts, model):
             new = b.arg_origin(bb, 2)
             ok_new = new[0] == "op" and new[1] in ("Add", "Sub", "AddWithOverflow", "SubWithOverflow", "AddUnchecked", "SubUnchecked") and \
                 cur in new[2] and any(x[0] == "const" and x[1].split("_")[0].strip() in ("1", "const 1") for x in new[2])
+            if not ok_new and new[0] == "call":
+                # the same step written with a std helper: checked_/wrapping_/saturating_ add|sub (current, 1), possibly unwrapped by `?`
+                nc = b.term(new[1])["callee"]
+                one = b.arg_origin(new[1], 1) if len(b.term(new[1])["args"]) > 1 else None
+                ok_new = bool(re.search(r"::(checked|wrapping|saturating|strict)_(add|sub)$", nc.get("path", ""))) and b.arg_origin(new[1], 0) == cur and \
+                    one is not None and one[0] == "const" and one[1].split("_")[0].strip() in ("1", "const 1")
             ctx.ob("C10-R2", key + ": new = current +/- 1 of the same current", ok_new, b.loc(bb),
                    "" if ok_new else "the value installed by the CAS is not computed from the expected value it compares against (new=%r, current=%r)" % (new, cur))
             # current: only from load(atom) or the Err payload
